@@ -159,6 +159,41 @@ def commute_outcomes(ctx: Ctx, new_cls: ClassInfo, existing: ClassInfo, flags: d
     return f, outs
 
 
+def _collision_guarded(f: FunctionInfo, o: "Outcome") -> bool:
+    """Has the path established `(current.target.columns - current.columns)` disjoint from `self.fixed.columns`?"""
+    from ..setalg import Venn
+
+    cur = [p for p in f.params if p != "self"][0]
+    atoms = [f"{cur}.columns", "self.fixed.columns", f"{cur}.target.columns"]
+    v = Venn(atoms)
+    C, F, T = (v.atom(a) for a in atoms)
+    need_empty = (T - C) & F
+    env: dict[str, frozenset] = {}
+    known_empty: frozenset = frozenset()
+    for s in o.path.steps:
+        if s.kind == "stmt" and isinstance(s.node, ast.Assign) and len(s.node.targets) == 1 and isinstance(s.node.targets[0], ast.Name):
+            val = v.eval(s.node.value, env)
+            if val is not None:
+                env[s.node.targets[0].id] = val
+        if s.kind != "cond":
+            continue
+        t, pol = s.node, s.value
+        while isinstance(t, ast.UnaryOp) and isinstance(t.op, ast.Not):
+            t, pol = t.operand, not pol
+        inter = None
+        if isinstance(t, ast.Call) and call_attr(t) == "isdisjoint" and len(t.args) == 1 and isinstance(t.func, ast.Attribute):
+            x, y = v.eval(t.func.value, env), v.eval(t.args[0], env)
+            if x is not None and y is not None and pol:
+                inter = x & y
+        elif isinstance(t, ast.BinOp) and isinstance(t.op, ast.BitAnd):
+            x = v.eval(t, env)
+            if x is not None and not pol:
+                inter = x  # `if not (a & b)` / `if a & b: ... else` : the intersection is empty here
+        if inter is not None:
+            known_empty = known_empty | inter
+    return need_empty <= known_empty
+
+
 def _widened_exact(ctx: Ctx, f: FunctionInfo, o: "Outcome", sec: ast.Call) -> bool | None:
     """Is the column set of the restored projection exactly `current.columns | fixed.columns` (for every value of the
     sets, given that a projection's columns are a subset of its target's)?  None when the expression is not set algebra."""
@@ -197,6 +232,8 @@ def _widened_exact(ctx: Ctx, f: FunctionInfo, o: "Outcome", sec: ast.Call) -> bo
     if got is None:
         return None
     valid = frozenset(r for r in v.full if not (r in C and r not in T))
+    if _collision_guarded(f, o):
+        valid = valid - ((T - C) & F)
     return (got & valid) == ((C | F) & valid)
 
 
@@ -239,6 +276,20 @@ def r04_1_matrix(ctx: Ctx) -> None:
                     if ok and n.name == "PartialJoin":
                         ok = "applied_columns" in src(sec) or "fixed.columns" in src(sec)
                         exact = _widened_exact(ctx, f, o, sec)
+                        if not _collision_guarded(f, o):
+                            run.fail(
+                                "R04.1",
+                                f"{inst}:collision-guard",
+                                "PartialJoin.commute moves the join above an existing Projection without having established that the columns the projection "
+                                "drops are disjoint from the fixed operand's columns: upstream of the projection the target still has a column with the same tag as "
+                                "one of the fixed operand, so the joined relation has two candidates for it and (depending on which side the fixed operand is) "
+                                "the values of the dropped column are returned instead of the fixed operand's",
+                                fi=f,
+                                node=o.call,
+                                details=describe(o.path),
+                            )
+                        else:
+                            run.ok("R04.1", f"{inst}:collision-guard")
                         if ok and exact is False:
                             bad = o
                             problem = (
